@@ -222,6 +222,19 @@ def run_case(job):
     if outcome != 'ok':
         return 'options %s: %r raises %s, expected value %r' % (o, text, outcome, full_want)
     if norm(got) == norm(full_want):
+        # a flat map of words is also parsed by a map template whose key and value are the SAME symbol
+        if o['top'] == 'value' and isinstance(want, dict) and toks.count('{') == 1 and '[' not in toks:
+            from ak import llparser
+            key = 'samesym%d' % o['mapafd']
+            if key not in _PARSERS:
+                _PARSERS[key] = llparser.LLParser(TOK, synonyms=SYN, productions={
+                    'E': [('MAP',)], 'MAP': llparser.MapProds('{', 'WORD', ':', 'WORD', ',', '}', allow_final_delimiter=o['mapafd'])})
+            try:
+                got2 = unwrap(_PARSERS[key].parse(text))
+            except Exception as e:
+                return 'map with key symbol = value symbol: %r raised %s' % (text, type(e).__name__)
+            if norm(got2) != norm(full_want):
+                return 'map template with the same symbol for keys and values: %r gives %r, the text denotes %r' % (text, got2, full_want)
         return None
     return 'options %s: %r gives %r, the text denotes %r' % (o, text, got, full_want)
 
